@@ -22,7 +22,7 @@ PROPS = {
         witness=[dict(append_to='tonic/src/status.rs', module='replay/status_witness.rs', crate='tonic', filter='verif_witness_status', features=['--features', 'gzip,deflate,zstd']), dict(append_to='tonic/src/codec/decode.rs', module='replay/decode_witness.rs', crate='tonic', filter='verif_witness_decode', features=['--features', 'gzip,deflate,zstd'])],
         not_covered=[
             'decided here: the hand-off of status / trailers / metadata at both ends (encode, decode, status units) AND the call-shape glue: client Grpc::{prepare_request, create_response, streaming, client_streaming, unary, server_streaming} and server Grpc::{map_request_unary, map_request_streaming, map_response, unary, server_streaming, client_streaming, streaming} as sequential async code (Verus treats .await as a call)',
-            'the glue is proved RELATIVE to assumed interfaces: the transport (GrpcService: ghost log of requests + the answer its future resolves to), the handler (respond(): its answer is a function of handler and request), the Codec, and the Streaming stream API (try_next / trailers as functions nxt / trl of the stream state, A-tonic-decode-02); Streaming::message / Streaming::trailers themselves (future::poll_fn over poll_next) are not under contract',
+            'the glue is proved RELATIVE to assumed interfaces: the transport (GrpcService: ghost log of requests + the answer its future resolves to), the handler (respond(): its answer is a function of handler and request), the Codec, and the Streaming stream API (try_next / trailers as functions nxt / trl of the stream state, A-tonic-decode-02); Streaming::message / Streaming::trailers are under contract in unit decode (message() is what the REAL poll_next answers when driven to readiness: await of poll_fn modelled as a poll-until-ready loop, A-future-04), but the glue units still see the stream through nxt / trl, not through those contracts',
             'the HTTP/2 transport between the two ends (hyper/h2): that the client http::Response carries the status line, headers, DATA and trailers the server produced, under any fragmentation and interleaving; task scheduling (the property quantifies over readiness interleavings: covered only per poll call by the ghost-history contracts of encode / decode)',
             'Grpc::apply_compression_config (for loop over a const slice with a reference pattern) and the generated code that picks the call shape are not under contract',
         ]),
